@@ -508,3 +508,97 @@ pub fn mentions_param_rule(cx: &Cx, rep: &mut Report) {
     rep.check(sets_true_ok && !bad_set, "DM-mentions-param", &fd.qual, "first-segment", "a type is not reported as mentioning a parameter exactly when some path without leading `::` starts with a parameter name", &site(&fd), json!({}));
     rep.check(all_descend, "DM-mentions-param", &fd.qual, "descends", "the visitor does not keep descending into the path (generic arguments would be missed)", &site(&fd), json!({}));
 }
+
+
+/// ES-same-source: the field entries a builder receives are the in-order enumeration of the very
+/// `Fields` of the item / variant it also receives (names and values zip in one order)
+pub fn same_source_rule(cx: &Cx, rep: &mut Report) {
+    let ix = &cx.ix;
+    // FieldEntry::from_fields
+    if let Some(ff) = find_fn(ix, &|f| f.self_ty.as_deref() == Some("FieldEntry") && sig_text(f).contains("Fields") && sig_text(f).contains("Result<Vec<Self>>")) {
+        let mut ev = mk_ev(ix);
+        if let Some(fa) = find_fn(ix, &|f| f.self_ty.as_deref() == Some("HelperAttributes") && sig_text(f).contains("AttributeTarget") && sig_text(f).contains("Result<Self>")) { ev.stops.push((fa.qual.clone(), "ret")); }
+        let outs = ev.call_fn(St::new(), &ff, None, vec![sym("Fields", "fields"), sym("HelperAttributeKinds", "kinds")]);
+        let mut ok = false;
+        for (_, fl) in &outs {
+            let Flow::Val(v) = fl else { continue };
+            let items: Vec<Val> = match v { Val::List(l) => l.clone(), o => vec![o.clone()] };
+            if items.len() != 1 { continue; }
+            if let Val::Rep { coll, items: body } = &items[0] {
+                if coll != "fields" || body.len() != 1 { continue; }
+                let good = body[0].any(&|x| matches!(x, Val::Struct { name, fields } if name == "FieldEntry"
+                    && fields.iter().any(|(_, fv)| matches!(fv, Val::Sym { path, .. } if path == "fields[*]#index"))
+                    && fields.iter().any(|(_, fv)| matches!(fv, Val::Sym { path, .. } if path == "fields[*]"))));
+                if good { ok = true; }
+            }
+        }
+        rep.check(ok, "ES-same-source", &ff.qual, "in-order-enumeration", "the field entries are not the in-order enumeration (index, field) of the given `Fields`", &site(&ff), json!({"paths": outs.iter().map(|(_, fl)| match fl { Flow::Val(v) | Flow::Ret(v) => v.short().chars().take(200).collect::<String>(), _ => String::new() }).collect::<Vec<_>>()}));
+        rep.unanalysable(&ff.qual, &ev.unsupported.borrow());
+    } else { rep.fail("unanalysable", "FieldEntry", "from_fields", "constructor of the field entries from `Fields` not found", "item_type.rs", json!({})); }
+    // cores pass the entries built from the item they pass alongside
+    for kind in ["struct", "enum"] {
+        let Some(cm) = core_model(cx, kind) else { continue };
+        let mut ok = false;
+        let mut bad = None;
+        for (_, fl) in &cm.outs {
+            let v = match fl { Flow::Val(v) | Flow::Ret(v) => v, _ => continue };
+            v.any(&|x| {
+                if let Val::Opaque { what, deps } = x {
+                    if cm.builders.contains(what) {
+                        let item = deps.iter().find_map(|d| if let Val::Sym { path, ty } = d { if ty.name().map(|n| n.starts_with("Item")).unwrap_or(false) { Some(path.clone()) } else { None } } else { None });
+                        let entries = deps.iter().find_map(|d| if let Val::Sym { path, .. } = d { if path.contains("#(") && (path.contains("from_fields") || path.contains("from_variants") || path.contains("FieldEntry") || path.contains("VariantEntry")) { Some(path.clone()) } else { None } } else { None });
+                        if let (Some(i), Some(e)) = (item, entries) {
+                            if e.contains(&format!("#({i}.")) { SAME_OK.with(|c| c.set(true)); } else { SAME_BAD.with(|c| *c.borrow_mut() = Some(format!("{what}({i}, {e})"))); }
+                        }
+                    }
+                }
+                false
+            });
+        }
+        if SAME_OK.with(|c| c.replace(false)) { ok = true; }
+        if let Some(b) = SAME_BAD.with(|c| c.borrow_mut().take()) { bad = Some(b); }
+        rep.check(ok && bad.is_none(), "ES-same-source", &format!("{kind} core"), "entries-of-item", &format!("a builder receives field/variant entries that were not built from the item it receives: {bad:?}"), &cm.site, json!({}));
+    }
+    // VariantEntry keeps the variant together with the entries of that variant's own fields
+    if let Some(vn) = find_fn(ix, &|f| f.self_ty.as_deref() == Some("VariantEntry") && sig_text(f).contains("Variant,") && sig_text(f).contains("Result<Self>")) {
+        let mut ev = mk_ev(ix);
+        for c in crate::roles::CallGraph::build(ix).edges.get(&vn.qual).cloned().unwrap_or_default() { if let Some(f) = ix.get_fn(&c) { if sig_text(&f).contains("->Result<") { ev.stops.push((c.clone(), "ret")); } } }
+        let outs = ev.call_fn(St::new(), &vn, None, vec![sym("Variant", "variant"), sym("HelperAttributeKinds", "kinds")]);
+        let ok = outs.iter().any(|(_, fl)| matches!(fl, Flow::Val(v) | Flow::Ret(v) if v.any(&|x| matches!(x, Val::Struct { name, fields } if name == "VariantEntry" && fields.iter().any(|(_, fv)| matches!(fv, Val::Sym { path, .. } if path == "variant")) && fields.iter().any(|(_, fv)| matches!(fv, Val::Sym { path, .. } if path.contains("#(variant.fields"))))))) ;
+        rep.check(ok, "ES-same-source", &vn.qual, "variant-fields", "a variant entry does not hold the entries of that variant's own fields", &site(&vn), json!({}));
+    }
+}
+thread_local! { static SAME_OK: std::cell::Cell<bool> = Default::default(); static SAME_BAD: std::cell::RefCell<Option<String>> = Default::default(); }
+
+/// DM-op-tables: from_str / to_str / to_func_name / Assign suffix agree on every operator
+pub fn op_tables_rule(cx: &Cx, rep: &mut Report) {
+    let ix = &cx.ix;
+    let ev = mk_ev(ix);
+    let call1 = |q: &str, self_v: Option<Val>, args: Vec<Val>| -> Option<Val> {
+        let f = ix.get_fn(q)?;
+        let outs = ev.call_fn(St::new(), &f, self_v, args);
+        if outs.len() != 1 { return None; }
+        match &outs[0].1 { Flow::Val(v) | Flow::Ret(v) => Some(v.clone()), _ => None }
+    };
+    for (ty, table) in [("BinaryOp", vec![("Add", "add"), ("BitAnd", "bitand"), ("BitOr", "bitor"), ("BitXor", "bitxor"), ("Div", "div"), ("Mul", "mul"), ("Rem", "rem"), ("Shl", "shl"), ("Shr", "shr"), ("Sub", "sub")]), ("UnaryOp", vec![("Neg", "neg"), ("Not", "not")])] {
+        for (name, func) in &table {
+            let v = Val::Enum { ty: ty.to_string(), var: name.to_string(), args: vec![] };
+            let ts = call1(&format!("{ty}::to_str"), Some(v.clone()), vec![]);
+            let tf = call1(&format!("{ty}::to_func_name"), Some(v.clone()), vec![]);
+            let fs = call1(&format!("{ty}::from_str"), None, vec![Val::Str(name.to_string())]);
+            let ok = matches!(&ts, Some(Val::Str(s)) if s == name) && matches!(&tf, Some(Val::Str(s)) if s == func) && matches!(&fs, Some(Val::Enum { var, args, .. }) if var == "Some" && matches!(args.first(), Some(Val::Enum { var: v2, .. }) if v2 == name));
+            rep.check(ok, "DM-op-tables", ty, name, &format!("{ty}::{name}: to_str={:?} to_func_name={:?} from_str({name:?})={:?}; expected {name:?}, {func:?}, Some({name})", ts.map(|x| x.short()), tf.map(|x| x.short()), fs.map(|x| x.short())), "common.rs / item_type.rs", json!({}));
+            // the trait list parser maps "Name" and "NameAssign" to the operator kinds
+            let k = call1("DeriveItemKind::from_str", None, vec![Val::Str(name.to_string())]);
+            let want_kind = if ty == "BinaryOp" { "BinaryOp" } else { "UnaryOp" };
+            let k_ok = matches!(&k, Some(Val::Enum { var, args, .. }) if var == "Some" && matches!(args.first(), Some(Val::Enum { var: kv, args: ka, .. }) if kv == want_kind && matches!(ka.first(), Some(Val::Enum { var: ov, .. }) if ov == name)));
+            rep.check(k_ok, "DM-op-tables", "DeriveItemKind::from_str", name, &format!("`{name}` in the trait list is parsed as {:?}", k.map(|x| x.short())), "item_type.rs", json!({}));
+            if ty == "BinaryOp" {
+                let k = call1("DeriveItemKind::from_str", None, vec![Val::Str(format!("{name}Assign"))]);
+                let k_ok = matches!(&k, Some(Val::Enum { var, args, .. }) if var == "Some" && matches!(args.first(), Some(Val::Enum { var: kv, args: ka, .. }) if kv == "AssignOp" && matches!(ka.first(), Some(Val::Enum { var: ov, .. }) if ov == name)));
+                rep.check(k_ok, "DM-op-tables", "DeriveItemKind::from_str", &format!("{name}Assign"), &format!("`{name}Assign` in the trait list is parsed as {:?}", k.map(|x| x.short())), "item_type.rs", json!({}));
+            }
+        }
+    }
+    rep.unanalysable("operator tables", &ev.unsupported.borrow());
+}
